@@ -10,6 +10,7 @@ package gorums
 import (
 	"errors"
 	"fmt"
+	"os"
 	"testing"
 
 	"github.com/relab/gorums/tests/mock"
@@ -91,6 +92,10 @@ func TestGvcReplay(t *testing.T) {
 		all = append(all, h4Op{watch: true, level: l}, h4Op{level: l}, h4Op{level: l, done: true})
 	}
 	count := 0
+	maxLen := 4
+	if os.Getenv("GVC_DEEP") != "" {
+		maxLen = 5 // thorough tier
+	}
 	var rec func(prefix []h4Op, level int, done bool)
 	rec = func(prefix []h4Op, level int, done bool) {
 		if len(prefix) > 0 {
@@ -99,7 +104,7 @@ func TestGvcReplay(t *testing.T) {
 				t.Fatalf("GVC-REPLAY: Correctable violates C11.\n  scenario: new correctable at LevelNotSet, then %v\n  %v", prefix, err)
 			}
 		}
-		if len(prefix) == 4 {
+		if len(prefix) == maxLen {
 			return
 		}
 		for _, o := range all {
@@ -114,5 +119,5 @@ func TestGvcReplay(t *testing.T) {
 		}
 	}
 	rec(nil, LevelNotSet, false)
-	t.Logf("GVC-REPLAY-OK scenarios=%d bound=\"every contract-respecting sequence of <= 4 Watch/set operations over levels 0..3\"", count)
+	t.Logf("GVC-REPLAY-OK scenarios=%d bound=\"every contract-respecting sequence of <= %d Watch/set operations over levels 0..3\"", count, maxLen)
 }
